@@ -7,10 +7,22 @@
    ([render]), the module path of an item ([mod_path]) and the split-mode file-name pieces are arbitrary
    functions.  The theorems say the output is the same for ALL values of the permutation parameters.
    Inventory.v (regenerated from the Rust sources on every run) ties the parameters to the code: the list
-   of unordered-iteration sites must be exactly the list the model accounts for. *)
+   of unordered-iteration sites must be exactly the list the model accounts for.
+
+   SCOPE (audit of 2026-10-02).  [render], [mod_path], [kind_prefix], [item_name], [crate_name], [repubs], [dep_names] are universally
+   quantified FUNCTIONS of the item: what C17_single / _split / _workspace prove is that the ARRANGEMENT of the per-item texts (order,
+   grouping, file names, module nesting, crate membership) does not depend on hash seeds and on the order in which the work items are
+   taken up -- NOT that the text of one item is byte-identical from run to run.  That the rendering of ONE item depends on nothing
+   but the item and the document is an ASSUMPTION of these theorems; it is backed by C17_render_inventory (every seeded container and
+   every piece of shared / memoised / thread-local state in the rendering code is regenerated and classified: none is order-bearing
+   inside one item) and observed by hashing every emitted file across processes, thread counts and repeated builds in one process.
+   A schedule is modelled as a permutation of the work list followed by a sequential fold: true interleavings of the bodies are not
+   representable; that bodies touch disjoint state (their own DashMap entry / directory) is the reason recorded per site, not a theorem
+   about rayon. *)
 From Coq Require Import String List Permutation.
 From PVBld Require Import Generated.Inventory Generated.CollectSites Pipeline Collect Dedup
-                          Proofs.PipelineP Proofs.InventoryP Proofs.CollectP Proofs.DedupP Proofs.SplitNamesP.
+                          Proofs.PipelineP Proofs.InventoryP Proofs.CollectP Proofs.DedupP Proofs.SplitNamesP Proofs.RenderStateP.
+From PVBld Require Import Generated.RenderState.
 Import ListNotations.
 
 (* single-file mode: the text written to the output file (and the -- empty -- set of side files) *)
@@ -192,3 +204,22 @@ Theorem C17_split_names_grouped_refuted :
                   (assigned_grouped pi' ["message_Foo"; "message_foo"; "message_foo_2"]%string).
 Proof. exact split_names_grouped_refuted. Qed.
 Print Assumptions C17_split_names_grouped_refuted.
+
+(* ---- the assumption behind `render : item -> string` as an obligation on the source --------------------------------------------------
+   (1) among the seeded-container sites of the rendering code (codegen/, plugin/, middle/, db.rs, symbol.rs, tags.rs) every reason is a
+       harmless one, the order-bearing sites are exactly the arrangement sites of write_items / pkg_tree / workspace, and none of them lies
+       in a function that renders one item (write_item, write_struct, ..., the plugins' on_item / can_derive, rust_name, def_lit ...);
+   (2) the regenerated list of shared / process-wide / memoised / thread-local state is the list classified in RenderStateP.state_accounted
+       (memoised pure query | set once before rendering | constant table | concurrent map keyed by the item at hand | scoped thread-local).
+   The classification itself is read from the code (trusted); a new static, OnceLock, DashMap, Mutex, thread-local or query group breaks (2). *)
+Theorem C17_render_inventory :
+  (forallb (fun sr => render_safe (snd sr)) render_sites = true /\
+   existsb (fun sr => existsb (String.eqb (snd (fst (fst (fst sr)))))
+                        ["write_item"; "write_struct"; "write_enum"; "write_service"; "write_new_type"; "write_const"; "on_item"; "on_field";
+                         "on_variant"; "can_derive"; "rust_name"; "def_lit"; "lit_into_ty"]%string)
+           (filter (fun sr => match snd sr with RPermParam _ _ | RSortedAfter _ _ | RDisjointKeys _ _ => true | _ => false end) accounted) = false) /\
+  map (fun e => fst e) state_accounted = state_sites.
+Proof.
+  exact (conj (conj (proj1 render_inventory) (proj2 (proj2 render_inventory))) state_sites_accounted).
+Qed.
+Print Assumptions C17_render_inventory.
